@@ -94,7 +94,7 @@ func c07Build(o *orbitDBDocumentStore, n, klen int) *c07State {
 		switch vstub.NdChoice("op", 3) {
 		case 0: // PUT
 			key := asciiKey("key", klen)
-			v := vstub.NdByte("v")
+			v := vstub.NdASCII("v")
 			data, err = operation.NewOperation(&key, "PUT", c07Doc(o, key, v)).Marshal()
 			ref.put(key, v)
 		case 1: // DEL
@@ -105,8 +105,8 @@ func c07Build(o *orbitDBDocumentStore, n, klen int) *c07State {
 			k1 := asciiKey("key", klen)
 			k2 := asciiKey("key", klen)
 			vstub.Assume(k1 != k2)
-			v1 := vstub.NdByte("v")
-			v2 := vstub.NdByte("v")
+			v1 := vstub.NdASCII("v")
+			v2 := vstub.NdASCII("v")
 			empty := ""
 			data, err = operation.NewOperationWithDocuments(&empty, "PUTALL", map[string][]byte{
 				k1: c07Doc(o, k1, v1), k2: c07Doc(o, k2, v2)}).Marshal()
@@ -187,7 +187,7 @@ func c07Puts(o *orbitDBDocumentStore, m, klen int) *c07State {
 	var entries []ipfslog.Entry
 	for k := 0; k < m; k++ {
 		key := asciiKey("key", klen)
-		v := vstub.NdByte("v")
+		v := vstub.NdASCII("v")
 		data, err := operation.NewOperation(&key, "PUT", c07Doc(o, key, v)).Marshal()
 		if err != nil {
 			vstub.Fail("C07 marshal failed")
@@ -259,7 +259,7 @@ func VerifC07Query() {
 		return
 	}
 	ref := c07Puts(o, m, klen)
-	c := vstub.NdByte("queryByte")
+	c := vstub.NdASCII("queryByte")
 	mode := vstub.NdChoice("predicate", 3) // always / never / value == c
 	docs, err := o.Query(context.Background(), func(doc interface{}) (bool, error) {
 		switch mode {
